@@ -9,7 +9,7 @@ jobs = int(sys.argv[sys.argv.index('-j') + 1]) if '-j' in sys.argv else 3
 args = [a for a in args if not a.isdigit()]
 seeds = sorted(d for d in glob.glob(V + '/seeded/C*_*') + glob.glob(V + '/seeded2/C*_*') + glob.glob(V + '/seeded3/C*_*') if os.path.exists(d + '/patch.diff'))
 if args:
-    seeds = [d for d in seeds if os.path.basename(d).split('_')[0] in args or os.path.basename(d) in args or ('w2' in args and '/seeded2/' in d) or ('w3' in args and '/seeded3/' in d)]
+    seeds = [d for d in seeds if os.path.basename(d).split('_')[0] in args or (os.path.basename(d) in args and '/seeded/' in d) or ('w2' in args and '/seeded2/' in d) or ('w3' in args and '/seeded3/' in d) or ('/seeded3/' in d and os.path.basename(d) + '_w3' in args) or ('/seeded2/' in d and os.path.basename(d) + '_w2' in args)]
 prev = {}
 mp = V + '/seeded/MATRIX.json'
 if os.path.exists(mp):
